@@ -214,6 +214,8 @@ func (db *ContractDB) parseFile(prog *ssa.Program, pkg *packages.Package, f *ast
 				props, label, text := parseClauseHead(strings.TrimSpace(r2))
 				key := pkg.PkgPath + "." + strings.TrimSuffix(tn, ":")
 				db.typeInvs[key] = append(db.typeInvs[key], typeInv{label: label, text: text, props: props, line: where})
+			case "grammar":
+				// read by the extraction of the grammar actions (actions.go)
 			case "frameprops":
 				// frameprops Type.field C14 C01: further properties that rest on
 				// this field being left as it was found (frame obligations)
